@@ -513,8 +513,14 @@ def build_cell(template, cellvars, depth_up, parallel=False):
         params = {'spec': spec, 'name': sp['name']}
         if parallel or sp.get('parallel'):
             params['_parallel'] = True
-        processes[sp['name']] = CProc(params)
-        topology[sp['name']] = {'vars': ('vars',), 'probe': probe}
+        if template.get('nest'):
+            # the cell's processes live in a sub-compartment of the cell
+            processes.setdefault('sub', {})[sp['name']] = CProc(params)
+            topology.setdefault('sub', {})[sp['name']] = {
+                'vars': ('..', 'vars'), 'probe': ('..',) + probe}
+        else:
+            processes[sp['name']] = CProc(params)
+            topology[sp['name']] = {'vars': ('vars',), 'probe': probe}
     for sp in template.get('steps', []):
         spec = dict(sp)
         spec['cellvars'] = cellvars
@@ -634,6 +640,11 @@ class AProc(ScriptedMixin, Process):
             if c is not None:
                 u['_delete'] = [c]
             up['agents'] = u
+        elif kind == 'add_twice':
+            # the same new key twice in one `_add` list: the second is an add of an existing key
+            key = self._fresh(k)
+            st = {'vars': decode_value(copy.deepcopy(op[1]))}
+            up['agents'] = {'_add': [{'key': key, 'state': st}, {'key': key, 'state': copy.deepcopy(st)}]}
         elif kind == 'add_existing':
             c = pick('agents', op[1])
             if c is not None:
@@ -770,3 +781,13 @@ class VStep(VProc, Step):
     """The viewer as a step: it looks at the cells inside the step phase, after
     the structural updates of the steps it depends on."""
     name = 'viewer'
+
+
+class RawProc(KProc):
+    """A process whose ports_schema() hands out a dictionary it keeps (here: a
+    part of its parameters, which every process built from the same composer
+    configuration shares)."""
+    name = 'rawproc'
+
+    def ports_schema(self):
+        return self._parameters['spec']['raw_schema']
